@@ -130,7 +130,8 @@ def cases(ctx):
     if not ctx.quick:
         floaty = ("prim.float", "from_str.float", "map.key_float")
         api_paths += [(f"{cid}@{d}", expr, extra, d) for cid, expr, extra, docid in API_PATHS for d in ("dm", "dl", "di", "ds")
-                      if d != docid and cid not in floaty]
+                      if d != docid and cid not in floaty
+                      and not (d == "dm" and cid in ("map.key_int", "map.key_bool"))]   # a symbolic int / bool key against dm's float key 1.5 stalls z3
         spec_paths += [(f"{cid}@{d}", specs, extra, d) for cid, specs, extra, docid in SPEC_PATHS for d in ("dm", "dl", "di", "ds") if d != docid]
     for cid, expr, extra, docid in api_paths:
         params = extra + [("u1", U), ("u2", "int"), ("u3", "int")]
